@@ -207,7 +207,7 @@ class Analyzer(object):
             if kb is not None and e.a['op'] == '+' and (ca is not None or (kb[0] == 'role' and kb[1] in OFFSET_KINDS)):
                 return kb
             return None
-        if e.k == 'Conditional':
+        if e.k == 'Cond':
             a, b = self.kind(e.c[1], env), self.kind(e.c[2], env)
             return a if a == b else None
         if e.k == 'Assign':
